@@ -182,6 +182,20 @@ def gen_cases(seed, tier):
     # begins both a plain spelling (xia) and a spelling with the foreign character (x;)
     specs.append(dict(idx=nprisms, kind="A", line="A ba ding xia xing | xform/ing$/;/", alpha="abdginx", delims="'",
                       bound=2, tags=["corpus:foreign-char-algebra"], nrandom=40, iseed=rng.getrandbits(32)))
+    # round 4: deeply nested spellings (each a proper prefix of the next, 12 and 14 deep - more matches at one position than any
+    # stock table has: the stock schemas nest at most 6), typed up to each depth, also after a shorter spelling and before a delimiter
+    unary = ["a" * n for n in range(1, 13)]
+    specs.append(dict(idx=nprisms + 1, kind="S", line="S " + " ".join(unary), alpha="a", delims="'", bound=14,
+                      tags=["corpus:nested-prefix-chain:unary"], nrandom=30, iseed=rng.getrandbits(32),
+                      extra_inputs=["a" * n for n in range(9, 26)] + ["a" * 12 + "'" + "a" * 10]))
+    word = "abcdefghijklmn"
+    chain = [word[:n] for n in range(1, 15)]
+    specs.append(dict(idx=nprisms + 2, kind="S", line="S " + " ".join(chain), alpha=word, delims="'", bound=1,
+                      tags=["corpus:nested-prefix-chain:word"], nrandom=60, iseed=rng.getrandbits(32),
+                      extra_inputs=chain + [c + d for c in chain[7:] for d in (chain[8], chain[10], "a", "'ab")]))
+    specs.append(dict(idx=nprisms + 3, kind="A", line="A " + " ".join(chain[4:]) + " | derive/^(.).*$/$1/ | derive/^(..).*$/$1/ | derive/^(...).*$/$1/ | derive/^(....).*$/$1/",
+                      alpha=word, delims="'", bound=1, tags=["corpus:nested-prefix-chain:algebra"], nrandom=60, iseed=rng.getrandbits(32),
+                      extra_inputs=chain + [c + d for c in chain[8:] for d in (chain[9], "ab")]))
     return specs
 
 
@@ -476,6 +490,7 @@ def run_chunk(args):
             bound += 1
         sp = dict(sp, bound=bound, foreign=foreign)
         inputs = gen_inputs(rng, symbols, sp["bound"], keys, sp["delims"], sp["nrandom"], 24)
+        inputs += [x for x in sp.get("extra_inputs", []) if x not in inputs]
         in_domain = all(not any(c in sp["delims"] for c in k) for k in keys) and all(
             d[1] <= 2 for ds in M.values() for d in ds)
         res["prisms"].append(dict(idx=sp["idx"], line=sp["line"], built=True, spellings=len(M), inputs=len(inputs),
